@@ -3,3 +3,4 @@
 pub mod blk;
 pub mod events;
 pub mod console;
+pub mod net;
